@@ -33,6 +33,8 @@ MANIFEST = dict(
          'generators enumerate is validated by correspondence, not verified; the derived influence set is checked to cover the '
          'measured template loads (get_source trace) and pydsdl dependencies, and spot-checked by editing inputs. Not covered: names '
          'that need stropping, --list-configuration combined with another listing mode, rendering errors. properties.yaml and '
+         'Explicit exclusions of list_inputs_complete: __init__.py/byte code of a templates package; templates included by a '
+         '--support-templates override (F-LIST-INPUTS-SUPREFS, known). properties.yaml and '
          '--configuration files influence the output and are not listed by --list-inputs: outside the property wording '
          '("every template and every DSDL file"), stated as an exclusion in the theorem and counted in the evidence.',
     design='§5 C08')
@@ -171,10 +173,10 @@ def make_case(rng, idx: int, forced: typing.Optional[dict] = None) -> dict:
     mode = f.get('mode', MODES[(idx // 4) % 4])
     omit = f.get('omit', rng.random() < (0.25 if mode == 'always' else 0.4))
     ns_types = f.get('ns_types', rng.random() < 0.4)
-    tpl = f.get('tpl', rng.choice([None, None, 'copy', 'copy+any', 'copy+extra', 'copy+nested', 'copy+nested', 'copy+empty']))
+    tpl = f.get('tpl', rng.choice([None, None, 'copy', 'copy+any', 'copy+extra', 'copy+nested', 'copy+nested', 'copy+empty', 'copy+res']))
     if ns_types and lang in ('c', 'cpp') and 'tpl' not in f and rng.random() < 0.7:
         tpl = rng.choice(['copy+any', 'copy+any', 'copy+empty'])
-    sup = f.get('sup', rng.choice([None, None, None, 'other', 'shadow']))
+    sup = f.get('sup', rng.choice([None, None, None, 'other', 'shadow', 'shadow+refs']))
     with_lookup = f.get('lookup', rng.random() < 0.5)
     roots, lookups = f.get('types') or gen_namespace(rng, with_lookup, 'abcdefgh'[idx % 8])
     return {'idx': idx, 'lang': lang, 'mode': mode, 'omit': omit, 'ns_types': ns_types,
@@ -200,6 +202,7 @@ def job_of(case: dict, work: str, rng) -> dict:
     lang = case['lang']
     copies, inventory = [], []
     appends: typing.Dict[str, str] = {}
+    symlinks: typing.Dict[str, str] = {'lnk': 'scratch/volume'} if case.get('outdir_kind') == 'symlink' else {}
     args = (['--configuration', 'cfg.yaml'] if case.get('config') else []) + ['-l', lang] + (['-Xlang'] if lang in ('cpp', 'html') else []) \
         + ['--generate-support', case['mode']]
     if case.get('config'):
@@ -224,6 +227,11 @@ def job_of(case: dict, work: str, rng) -> dict:
             files['tpl/extra/Unused.j2'] = 'never used\n'
             files['tpl/notes.txt'] = 'not a template\n'
             files['tpl/helper.py'] = '# a Python file next to the templates\n'
+        if case['tpl'] == 'copy+res':        # a .py resource and a template below a symbolically linked sub-directory, both included
+            files['tpl/snippet.py'] = 'text of a python resource\n'
+            files['shared/x.j2'] = 'text of a linked template\n'
+            symlinks['tpl/sl'] = '../shared'
+            appends['tpl/' + BASE_TPL[lang]] = '\n{% include "snippet.py" %}\n{% include "sl/x.j2" %}\n'
         if case['tpl'] == 'copy+empty':      # user templates that render nothing: the file is still created (empty)
             files['tpl/UnionType.j2'] = ''
             files['tpl/Any.j2'] = ''
@@ -233,9 +241,12 @@ def job_of(case: dict, work: str, rng) -> dict:
         args += ['--templates', 'tpl']
         inventory.append('tpl')
     if case['sup']:
-        if case['sup'] == 'shadow':
+        if case['sup'] in ('shadow', 'shadow+refs'):
             copies.append({'from': '%s/support' % lang, 'to': 'sup', 'only': SUPPORT_TPL[lang]})
             files['sup/readme.txt'] = 'x\n'
+            if case['sup'] == 'shadow+refs' and SUPPORT_TPL[lang]:      # the override includes a further template of its directory
+                files['sup/helper.j2'] = 'text included by the support override\n'
+                appends['sup/' + SUPPORT_TPL[lang][0]] = '\n{% include "helper.j2" %}\n'
         else:
             files['sup/other.j2'] = 'unrelated\n'
             files['sup/a/part.j2'] = 'unrelated a\n'
@@ -264,7 +275,12 @@ def job_of(case: dict, work: str, rng) -> dict:
                 cands.append({'id': 'tpl:nonj2', 'path': 'tpl/namespace_base.js', 'append': '\n// probe line\n'})
             if case['tpl'] == 'copy+extra':
                 cands.append({'id': 'tpl:unused', 'path': 'tpl/extra/Unused.j2', 'append': 'probe\n'})
-        if case['sup'] == 'shadow' and SUPPORT_TPL[lang]:
+        if case['sup'] == 'shadow+refs' and SUPPORT_TPL[lang]:
+            cands.insert(0, {'id': 'sup:included', 'path': 'sup/helper.j2', 'append': 'probe line\n'})
+        if case['tpl'] == 'copy+res':
+            cands.insert(0, {'id': 'tpl:pyres', 'path': 'tpl/snippet.py', 'append': 'probe line\n'})
+            cands.insert(0, {'id': 'tpl:linked', 'path': 'shared/x.j2', 'append': 'probe line\n'})
+        if case['sup'] in ('shadow', 'shadow+refs') and SUPPORT_TPL[lang]:
             cands.append({'id': 'sup:shadow', 'path': 'sup/' + SUPPORT_TPL[lang][0], 'append': '\nprobe line\n'})
         if case['sup'] == 'other':
             cands.append({'id': 'sup:other', 'path': rng.choice(['sup/other.j2', 'sup/a/part.j2', 'sup/b/part.j2']), 'append': 'probe\n'})
@@ -281,7 +297,7 @@ def job_of(case: dict, work: str, rng) -> dict:
     return {'work': work, 'files': files, 'appends': appends, 'copies': copies, 'args': args, 'root': root_dir, 'lookups': lk_dirs, 'probes': probes,
             'inventory': inventory, 'want_trace': True, 'list_configuration': bool(case.get('lc')), 'outdir': outdir_of(case),
             'mkdirs': ['scratch/volume'] if case.get('outdir_kind') == 'symlink' else [],
-            'symlinks': {'lnk': 'scratch/volume'} if case.get('outdir_kind') == 'symlink' else {}}
+            'symlinks': symlinks}
 
 
 def run_case(job: dict) -> dict:
@@ -316,9 +332,13 @@ def coq_tdir(work: str, d: str, inv: typing.List[str]) -> str:
         cls = CLS_OF_STEM.get(stem) if (j2 and '/' not in name) else None
         py = os.path.splitext(name)[1] in ('.py', '.pyc', '.pyo') or '__pycache__' in name.split('/')
         refs, dyn = gen_c08.scan_refs_file('%s/%s/%s' % (work, d, name))
-        items.append('{| tf_name := %s; tf_path := %s; tf_j2 := %s; tf_py := %s; tf_cls := %s; tf_refs := [%s]; tf_dyn := %s |}' % (
-            s2c(name), coq_path('%s/%s/%s' % (work, d, name)), coq_bool(j2), coq_bool(py), ('Some %s' % cls) if cls else 'None',
-            '; '.join(s2c(r) for r in refs), coq_bool(dyn)))
+        pkg = os.path.basename(name) == '__init__.py' or os.path.splitext(name)[1] in ('.pyc', '.pyo') or '__pycache__' in name.split('/')
+        real = os.path.realpath('%s/%s/%s' % (work, d, name))       # --list-inputs prints resolved paths
+        linked = not real.startswith(os.path.realpath('%s/%s' % (work, d)) + '/')
+        items.append('{| tf_name := %s; tf_path := %s; tf_j2 := %s; tf_py := %s; tf_pkg := %s; tf_linked := %s; tf_cls := %s; '
+                     'tf_refs := [%s]; tf_dyn := %s |}' % (
+                         s2c(name), coq_path(real), coq_bool(j2), coq_bool(py), coq_bool(pkg), coq_bool(linked),
+                         ('Some %s' % cls) if cls else 'None', '; '.join(s2c(r) for r in refs), coq_bool(dyn)))
     return 'Some [%s]' % '; '.join(items)
 
 
@@ -379,7 +399,8 @@ def run_model(cases: typing.List[dict], results: typing.List[dict], scratch: str
                        'trig_sup': ln[8][2] == '1', 'consistent': ln[8][3] == '1', 'fix_lookup': ln[8][4] == '1',
                        'fix_nonj2': ln[8][5] == '1', 'fix_suptpl': ln[8][6] == '1', 'trig_py': ln[8][7] == '1',
                        'path_pure': ln[8][8] == '1', 'trig_sup_refs': ln[8][9] == '1', 'fix_constref': ln[8][10] == '1',
-                       'trig_constref': ln[8][11] == '1', 'stem_check': ln[8][12] == '1', 'r_rerun': int(ln[8][13]), 'dirs': sp(ln[9])}
+                       'trig_constref': ln[8][11] == '1', 'stem_check': ln[8][12] == '1', 'fix_pyres': ln[8][13] == '1',
+                       'fix_linkdir': ln[8][14] == '1', 'eff_trig_tpl': ln[8][15] == '1', 'r_rerun': int(ln[8][16]), 'dirs': sp(ln[9])}
         return ''
     with concurrent.futures.ThreadPoolExecutor(max_workers=6) as ex:
         errs = [e for e in ex.map(one, range(6)) if e]
@@ -432,6 +453,12 @@ def witness_cases() -> typing.List[dict]:
              probes=[{'id': 'sup:shadow', 'path': 'sup/serialization.j2', 'append': '\nprobe line\n'}]),
         dict(base, lang='c', tpl=None, sup=None, types=constref_types(), tag='F-LIST-INPUTS-CONSTREF', config=False,
              probes=[{'id': 'const-only:capacity', 'path': 'lk/lkc/Limits.1.0.dsdl', 'text': dsdl_text(constref_types()[1][0], False, cmax=9)}]),
+        dict(base, lang='c', mode='never', tpl='copy+res', sup=None, types=plain_types(), tag='F-LIST-INPUTS-PYRES', config=False,
+             probes=[{'id': 'tpl:pyres', 'path': 'tpl/snippet.py', 'append': 'probe line\n'}]),
+        dict(base, lang='py', mode='never', tpl='copy+res', sup=None, types=plain_types(), tag='F-LIST-INPUTS-SYMLINKDIR', config=False,
+             probes=[{'id': 'tpl:linked', 'path': 'shared/x.j2', 'append': 'probe line\n'}]),
+        dict(base, lang='c', tpl=None, sup='shadow+refs', types=plain_types(), tag='F-LIST-INPUTS-SUPREFS', config=False,
+             probes=[{'id': 'sup:included', 'path': 'sup/helper.j2', 'append': 'probe line\n'}]),
         # the repaired F-LIST-ONLY-POD must stay repaired
         dict(base, lang='c', mode='only', omit=True, tpl=None, sup=None, types=plain_types(), tag='fixed:F-LIST-ONLY-POD', probes=[]),
         dict(base, lang='c', mode='always', omit=True, tpl=None, sup=None, types=plain_types(), tag='rejected', probes=[]),
@@ -483,7 +510,12 @@ def category(path: str, work: str, root_dir: str, comp: typing.Optional[typing.S
         # reached only through a constant used in an expression, or (also) as the type of a field
         return 'F-LIST-INPUTS-LOOKUP' if (comp is None or path in comp) else 'F-LIST-INPUTS-CONSTREF'
     if path.startswith(work + '/sup/'):
-        return 'F-LIST-INPUTS-SUPTPL'
+        # the override of a packaged resource itself, or something the override includes
+        return 'F-LIST-INPUTS-SUPTPL' if os.path.basename(path) in sum(SUPPORT_TPL.values(), []) else 'F-LIST-INPUTS-SUPREFS'
+    if path.startswith(work + '/shared/'):
+        return 'F-LIST-INPUTS-SYMLINKDIR'
+    if path.endswith('.py'):
+        return 'F-LIST-INPUTS-PYRES'
     if not path.endswith('.j2') and not path.endswith('.dsdl'):
         return 'F-LIST-INPUTS-NONJ2'
     return 'other'
@@ -492,7 +524,7 @@ def category(path: str, work: str, root_dir: str, comp: typing.Optional[typing.S
 # ---------------------------------------------------------------------------------------------
 def main(chk: core.Check, replay: typing.Optional[str] = None) -> int:
     known_entries(chk)
-    n_random = 32 if chk.tier == 'quick' else 300
+    n_random = 29 if chk.tier == 'quick' else 300
     rng = chk.rng
     cases = [make_case(rng, i, forced=w) for i, w in enumerate(witness_cases())]
     if replay:
@@ -697,7 +729,10 @@ def main(chk: core.Check, replay: typing.Optional[str] = None) -> int:
                          and (m is None or (x in m['influence'] and x not in m['li']))
                          and (m is None or {'F-LIST-INPUTS-LOOKUP': m['trig_lookup'], 'F-LIST-INPUTS-NONJ2': m['trig_nonj2'],
                                             'F-LIST-INPUTS-SUPTPL': m['trig_sup'],
-                                            'F-LIST-INPUTS-CONSTREF': m['trig_constref'] and not m['fix_constref']}[cat]))
+                                            'F-LIST-INPUTS-CONSTREF': m['trig_constref'] and not m['fix_constref'],
+                                            'F-LIST-INPUTS-PYRES': m['eff_trig_tpl'] and not m['fix_pyres'],
+                                            'F-LIST-INPUTS-SYMLINKDIR': m['eff_trig_tpl'] and not m['fix_linkdir'],
+                                            'F-LIST-INPUTS-SUPREFS': m['trig_sup_refs']}[cat]))
             if explained:
                 stats['known_finding_instances'] += 1
             else:
